@@ -90,7 +90,10 @@ type request struct {
 	mu      sync.Mutex
 	replies [][]byte
 	empties int // HTTP: "no reply" responses (frame 00000000)
-	sendErr string
+	// HTTP: the (base64-decoded) body of a 200 response that is not a well-formed frame
+	badFrame    []byte
+	badFrameWhy string
+	sendErr     string
 }
 
 func (r *request) kindName() string {
